@@ -107,6 +107,18 @@ def SInv(c, S):
 
 
 # ---------------------------------------------------------------------------- frames
+def rec_update(c, h1, v1, h2, v2):
+    """(has, val-on-has predicate) of dict(h1,v1).update(dict(h2,v2)) as a relation on (has', val')."""
+    def rel(h, v):
+        return z3.And(c.forall(["id"], lambda k: sel(h, k) == z3.Or(sel(h1, k), sel(h2, k))),
+                      c.forall(["id"], lambda k: z3.Implies(sel(h, k), sel(v, k) == z3.If(sel(h2, k), sel(v2, k), sel(v1, k)))))
+    return rel
+
+
+def rec_eq(c, h, v, h1, v1):
+    return z3.And(h == h1, c.forall(["id"], lambda k: z3.Implies(sel(h1, k), sel(v, k) == sel(v1, k))))
+
+
 def same_tables(c, A, B):
     """Structure and attribute tables equal (restricted to keys)."""
     cs = [A.nk == B.nk, A.ek == B.ek, A.nak == B.nak, A.eak == B.eak]
@@ -138,11 +150,12 @@ def edges_kept(c, A, B):
 
 # ---------------------------------------------------------------------------- registry
 class LoopSpec:
-    def __init__(self, header, inv, modifies=None, note=""):
+    def __init__(self, header, inv, modifies=None, note="", post=None):
         self.header = header
-        self.inv = inv  # lambda K: z3 Bool   (K: LoopCtx)
+        self.inv = inv  # lambda c, A, K: z3 Bool | groups   (K: LoopCtx)
         self.modifies = modifies
         self.note = note
+        self.post = post  # per-iteration postcondition: lambda c, A, K (K.head = state at the loop head)
 
 
 class Clause:
@@ -194,8 +207,8 @@ class FnSpec:
             self.props |= set(props)
         return self
 
-    def loop(self, header, inv, modifies=None, note=""):
-        self.loops.append(LoopSpec(header, inv, modifies, note))
+    def loop(self, header, inv, modifies=None, note="", post=None):
+        self.loops.append(LoopSpec(header, inv, modifies, note, post))
         return self
 
 
